@@ -965,6 +965,71 @@ func init() {
 					os.RemoveAll(filepath.Dir(arena2))
 				}
 			}
+			// history (a): a Packer whose previous Pack FAILED half-way (after copying file data) must report
+			// the same Meta as a fresh Packer (seed C20-d: a byte counter kept in the Packer)
+			{
+				hdir := filepath.Join(work, fmt.Sprintf("h%05d", a))
+				os.MkdirAll(filepath.Join(hdir, "bad"), 0755)
+				os.WriteFile(filepath.Join(hdir, "bad", "a.txt"), []byte("0123456789"), 0644)
+				os.WriteFile(filepath.Join(hdir, "secret"), []byte("s"), 0600)
+				os.Symlink("../secret", filepath.Join(hdir, "bad", "z_out")) // out of tree: Pack fails after a.txt
+				reused, _ := slug.NewPacker()
+				var sink bytes.Buffer
+				_, ferr := reused.Pack(filepath.Join(hdir, "bad"), &sink)
+				var b1, b2 bytes.Buffer
+				m1, e1 := reused.Pack(abs, &b1)
+				freshP, _ := slug.NewPacker()
+				m2, e2 := freshP.Pack(abs, &b2)
+				rep.Count("failed-then-pack")
+				if ferr != nil && e1 == nil && e2 == nil {
+					ents, sizes, _ := decodeSlug(b1.Bytes())
+					var sum int64
+					for _, sz := range sizes {
+						sum += sz
+					}
+					_ = ents
+					if m1.Size != sum {
+						rep.AddOracle(OracleFailure{Property: "C20", Lane: "pack-spelling", What: fmt.Sprintf("Meta.Size = %d but the slug holds %d content bytes, for a Packer whose previous Pack failed", m1.Size, sum), Input: c})
+					}
+					if m1.Size != m2.Size || strings.Join(m1.Files, "\x00") != strings.Join(m2.Files, "\x00") || !bytes.Equal(b1.Bytes(), b2.Bytes()) {
+						rep.AddOracle(OracleFailure{Property: "C16", Lane: "pack-spelling", What: "a Packer whose previous Pack failed produces a different result than a fresh Packer", Input: c})
+					}
+				}
+				os.RemoveAll(hdir)
+			}
+			// history (b): the rule file of a directory is replaced by another of the same length and the
+			// same modification time between two Packs of the same path; the second slug must be what the
+			// same tree gives at another path (seed C16-d: rules cached by path, size and mtime)
+			{
+				rdir := filepath.Join(work, fmt.Sprintf("r%05d", a))
+				mk := func(root, rules string) {
+					os.MkdirAll(root, 0755)
+					os.WriteFile(filepath.Join(root, "a.txt"), []byte("a"), 0644)
+					os.WriteFile(filepath.Join(root, "b.txt"), []byte("b"), 0644)
+					os.WriteFile(filepath.Join(root, "main.tf"), []byte("m"), 0644)
+					os.WriteFile(filepath.Join(root, ".terraformignore"), []byte(rules), 0644)
+					t0 := time.Unix(1500000000, 0)
+					for _, n := range []string{"a.txt", "b.txt", "main.tf", ".terraformignore"} {
+						os.Chtimes(filepath.Join(root, n), t0, t0)
+					}
+					os.Chtimes(root, t0, t0)
+				}
+				packI := func(root string) string {
+					var buf bytes.Buffer
+					return canonPack(runPack(root, &buf, &buf, false, true, nil))
+				}
+				mk(filepath.Join(rdir, "one"), "a.txt\n")
+				packI(filepath.Join(rdir, "one"))
+				mk(filepath.Join(rdir, "one"), "b.txt\n") // same length, same mtime
+				again := packI(filepath.Join(rdir, "one"))
+				mk(filepath.Join(rdir, "two"), "b.txt\n")
+				other := packI(filepath.Join(rdir, "two"))
+				rep.Count("rulefile-replaced")
+				if again != other {
+					rep.AddOracle(OracleFailure{Property: "C16", Lane: "pack-spelling", What: "after the rule file was replaced (same size and mtime) the directory packs differently from an identical tree at another path: earlier parsing leaks into this Pack", Input: c})
+				}
+				os.RemoveAll(rdir)
+			}
 			// concurrent Pack calls of the same tree
 			var wg sync.WaitGroup
 			results := make([]string, 4)
